@@ -130,7 +130,43 @@ def gen_good_kwargs(rng, kind):
         d['boot_script'] = '#!/bin/bash\necho "hi <&>"'
     if rng.random() < 0.1:
         d['details'] = 'some "details"'
+    if kind in ('node', 'component', 'service') and rng.random() < 0.3:
+        # any other settable property may be given at creation too (it is read back after the call, C02)
+        from . import w2_props
+        names = [n for n in w2_props.settable(kind) if n not in w2_props.NOT_GENERATED and n not in CTOR_PARAMS and
+                 n not in d]
+        for _ in range(rng.choice([1, 1, 2])):
+            n = rng.choice(names)
+            v = w2_props.gen_value(rng, n, kind)
+            if v is not None and n not in d:
+                d[n] = v
     return d
+
+
+# names that are parameters of the creating call itself (or change what is being created)
+CTOR_PARAMS = {'name', 'type', 'site', 'model', 'node_id', 'stitch_node', 'mirror_port', 'mirror_vlan', 'mirror_direction'}
+
+
+def build_ctor_kwargs(desc):
+    from . import w2_props
+    return {k: w2_props.build_value(v) for k, v in (desc or {}).items()}
+
+
+def check_creation_kwargs(w, e, desc, kind):
+    """what was given to the creating call reads back from the new element (C02: setting a property and reading it
+    back returns an equal value - a constructor argument is a set)"""
+    from . import w2_props
+    for k, v in (desc or {}).items():
+        want = w2_props.canon_value(w2_props.build_value(v))
+        try:
+            got = w2_props.canon_value(e.get_property(k))
+        except Exception as ex:
+            w.flag('C02', 'prop_set_get', {'kind': kind, 'name': k, 'via': 'creation', 'symptom': 'raises'},
+                   '%s created with %s=%s: reading it back raised %r' % (kind, k, canon(want)[:120], ex))
+            continue
+        if canon(got) != canon(want):
+            w.flag('C02', 'prop_set_get', {'kind': kind, 'name': k, 'via': 'creation'},
+                   '%s created with %s=%s reads back %s' % (kind, k, canon(want)[:200], canon(got)[:200]))
 
 
 BAD_KWARGS = [
@@ -298,8 +334,9 @@ def wchoice_(rng, d):
 @op('add_node', 'add')
 def x_add_node(w, s, st, info):
     from fim.slivers.network_node import NodeType
-    w.topo.add_node(name=s['name'], site=s['site'], ntype=NodeType[s['ntype']], node_id=s['id'],
-                    **build_kwargs(s['kw']))
+    n = w.topo.add_node(name=s['name'], site=s['site'], ntype=NodeType[s['ntype']], node_id=s['id'],
+                        **build_ctor_kwargs(s['kw']))
+    check_creation_kwargs(w, n, s['kw'], 'node')
 
 
 @op('add_component', 'add')
@@ -309,7 +346,7 @@ def g_add_component(w, rng, st):
         return None
     n = rng.choice(nodes)
     existing = [st.name(c) for c in st.components_of(n)]
-    s = {'node': st.name(n), 'name': pick_name(rng, W.COMP_NAMES, existing), 'model': rng.choice(W.COMP_MODELS),
+    s = {'node': st.name(n), 'name': pick_name(rng, W.COMP_NAMES, existing), 'model': rng.choice(W.COMP_MODELS + W.COMP_MODELS_NIC_BIAS),
          'id': maybe_id(w, rng, st), 'kw': gen_good_kwargs(rng, 'component') if rng.random() < 0.3 else {}}
     if w.cfg['flavour'] == 'substrate':
         s['nsid'] = w.new_id(rng)
@@ -320,7 +357,7 @@ def g_add_component(w, rng, st):
 @op('add_component', 'add')
 def x_add_component(w, s, st, info):
     n = get_node(w, s['node'])
-    kw = build_kwargs(s['kw'])
+    kw = build_ctor_kwargs(s['kw'])
     if w.cfg['flavour'] == 'substrate':
         from fim.slivers.capacities_labels import Labels
         from fim.slivers.component_catalog import ComponentModelTypeMap
@@ -329,13 +366,14 @@ def x_add_component(w, s, st, info):
         has_if = s['model'].split('_')[0] in ('SharedNIC', 'SmartNIC', 'FPGA')
         if has_if:
             labs = [Labels(bdf='0000:41:00.%d' % i, mac='0C:42:A1:EA:C7:5%d' % i) for i in range(nif)]
-            n.add_component(name=s['name'], model_type=w.cmt(s['model']), node_id=s['id'],
-                            network_service_node_id=s['nsid'], interface_node_ids=s['ifids'][:nif],
-                            interface_labels=labs, **kw)
+            c = n.add_component(name=s['name'], model_type=w.cmt(s['model']), node_id=s['id'],
+                                network_service_node_id=s['nsid'], interface_node_ids=s['ifids'][:nif],
+                                interface_labels=labs, **kw)
         else:
-            n.add_component(name=s['name'], model_type=w.cmt(s['model']), node_id=s['id'], **kw)
+            c = n.add_component(name=s['name'], model_type=w.cmt(s['model']), node_id=s['id'], **kw)
     else:
-        n.add_component(name=s['name'], model_type=w.cmt(s['model']), node_id=s['id'], **kw)
+        c = n.add_component(name=s['name'], model_type=w.cmt(s['model']), node_id=s['id'], **kw)
+    check_creation_kwargs(w, c, s['kw'], 'component')
 
 
 @op('add_storage', 'add')
@@ -436,11 +474,12 @@ def g_add_network_service(w, rng, st):
 def x_add_network_service(w, s, st, info):
     from fim.slivers.network_service import ServiceType
     ifs = [get_iface(w, r) for r in s['ifs']]
-    kw = build_kwargs(s['kw'])
+    kw = build_ctor_kwargs(s['kw'])
     if s.get('site'):
         kw['site'] = s['site']
     ns = w.topo.add_network_service(name=s['name'], nstype=ServiceType[s['nstype']], interfaces=ifs,
                                     node_id=s['id'], **kw)
+    check_creation_kwargs(w, ns, s['kw'], 'service')
     w.handles[s['name']] = ns
     info['handles'] = [ns]
 
@@ -1290,6 +1329,19 @@ def failing_variants(w, rng, st):
         if tops:
             out.append({'template': 'connect_connected', 'call': 'connect_interface', 'svc': st.name(rng.choice(tops)),
                         'iface': {'node': a, 'if': b}})
+    # connect_interface() refused by the connect-time guard rail on a service that already exists (the same refusal
+    # inside add_network_service is covered above, where the constructor's own rollback would hide a stray port)
+    if shared_free and not sub:
+        a, b, _ = rng.choice(shared_free)
+        ptp = [x for x in tops if st.typ(x) == 'L2PTP']
+        if ptp:
+            out.append({'template': 'connect_shared_to_l2ptp', 'pos': 'existing', 'call': 'connect_interface',
+                        'svc': st.name(rng.choice(ptp)), 'iface': {'node': a, 'if': b}})
+        else:
+            out.append({'template': 'connect_shared_to_l2ptp', 'pos': 'fresh', 'call': 'connect_interface',
+                        'svc': fresh_svc, 'iface': {'node': a, 'if': b},
+                        'setup': {'op': 'add_network_service', 'name': fresh_svc, 'nstype': 'L2PTP', 'ifs': [], 'id': None,
+                                  'kw': {}}})
     # ---- facility / switch
     if names:
         out.append({'template': 'dup_facility_name', 'call': 'add_facility', 'name': rng.choice(names), 'site': 'UKY',
@@ -1416,7 +1468,9 @@ def g_failing(w, rng, st):
         v = dict(v)
         setup = v.pop('setup', None)
         return ([dict(setup)] if setup else []) + [dict(v, op='failing')]
-    if rng.random() < 0.35 and not w.queue and w.stats.c.get('probe.failing_catalogue_enumerations', 0) < 2:
+    rich = len(st.n) >= 10 and bool(top_services(st)) and bool(st.of_class('Component'))
+    if rng.random() < (0.5 if rich else 0.08) and not w.queue and \
+            w.stats.c.get('probe.failing_catalogue_enumerations', 0) < 2:
         # fault enumeration: every template x position applicable in this state, one after another
         steps = [x for v in vs for x in expand(v)]
         w.stats.inc('probe.failing_catalogue_enumerations')
